@@ -1,11 +1,13 @@
 // k3_spawn_faults — sequential fault-injection sweep over spawn_detached / spawn_future (C09:
 // "for a throwing nest()/connect/allocation during spawn").  cfg plain17 (no scheduler shim).
 //
-// One case per input line:   <detached|future> <v2|v1|fv2|fv1> <v|e|d|a> <drop|await|fork>
+// One case per input line:   <detached|future> <v2|v1|fv2|fv1> <v|e|d|a> <drop|await|fork> [lv]
 //   scope   v2 / v1: the real scopes;  fv2 / fv1: a wrapper scope whose nest() is a fault point and
 //           then forwards to the real scope
 //   kind    how the spawned sender completes: value / error / done inline in start(), or 'a':
 //           asynchronously (the driver completes it with a value after the spawn + post action)
+//   [lv]    optional fifth word: the sender is handed to spawn_* as an LVALUE of a type whose copy constructor is a
+//           fault point and whose move constructor is noexcept (real scopes only)
 //   post    future: drop it / sync_wait it;  detached: ignored;  'fork' (detached only): run the
 //           case in a forked child and report how the child ended (std::terminate expected for 'e')
 // Fault points (each calls fp(); the k-th call of a run throws): the allocator's allocate ("alloc",
@@ -110,7 +112,12 @@ struct fop {
   }
 };
 
-struct fsend {
+// LV = false: copy and move constructors are both fault points (the sender is handed over as an rvalue);
+// LV = true: the copy constructor is a fault point, the move constructor is noexcept and is none (the sender is
+// handed over as an LVALUE: nest() of the real scopes must copy it, and every noexcept-specification on the way
+// has to be computed for the copy, not for the move)
+template <bool LV>
+struct fsend_t {
   template <template <typename...> class Variant, template <typename...> class Tuple>
   using value_types = Variant<Tuple<>>;
   template <template <typename...> class Variant>
@@ -119,17 +126,17 @@ struct fsend {
   static constexpr blocking_kind blocking = blocking_kind::maybe;
   static constexpr bool is_always_scheduler_affine = false;
   char kind;
-  explicit fsend(char k) : kind(k) { E.live_send++; }
-  fsend(const fsend& o) : kind(o.kind) { fp("copy"); E.live_send++; }
-  fsend(fsend&& o) : kind(o.kind) { fp("move"); E.live_send++; }
-  ~fsend() { E.live_send--; }
+  explicit fsend_t(char k) : kind(k) { E.live_send++; }
+  fsend_t(const fsend_t& o) : kind(o.kind) { fp("copy"); E.live_send++; }
+  fsend_t(fsend_t&& o) noexcept(LV) : kind(o.kind) { if constexpr (!LV) fp("move"); E.live_send++; }
+  ~fsend_t() { E.live_send--; }
   template <typename R>
-  friend fop<remove_cvref_t<R>> tag_invoke(tag_t<unifex::connect>, fsend&& s, R&& r) {
+  friend fop<remove_cvref_t<R>> tag_invoke(tag_t<unifex::connect>, fsend_t&& s, R&& r) {
     fp("connect");
     return fop<remove_cvref_t<R>>{(R&&)r, s.kind};
   }
   template <typename R>
-  friend fop<remove_cvref_t<R>> tag_invoke(tag_t<unifex::connect>, const fsend& s, R&& r) {
+  friend fop<remove_cvref_t<R>> tag_invoke(tag_t<unifex::connect>, const fsend_t& s, R&& r) {
     fp("connect");
     return fop<remove_cvref_t<R>>{(R&&)r, s.kind};
   }
@@ -157,8 +164,10 @@ template <typename S> void join(flaky<S>& s) { join(s.scope); }
 bool last_threw = false;
 
 // one run of one case with the k-th fault point throwing (k = 0: none); returns the failures
-template <typename Scope>
+template <typename Scope, bool LV = false>
 std::string run_once(const std::string& fn, char kind, const std::string& post, int k) {
+  using fsend = fsend_t<LV>;
+  auto pass = [](fsend& x) -> std::conditional_t<LV, fsend&, fsend&&> { return static_cast<std::conditional_t<LV, fsend&, fsend&&>>(x); };
   for (auto& q : E.quarantine) ::operator delete(q.first);
   E = Env{};
   E.countdown = k;
@@ -175,10 +184,10 @@ std::string run_once(const std::string& fn, char kind, const std::string& post, 
       fsend s{kind};
       try {
         if (fn == "detached") {
-          spawn_detached(std::move(s), scope, talloc<std::byte>{});
+          spawn_detached(pass(s), scope, talloc<std::byte>{});
           E.countdown = 0;
         } else {
-          auto fut = spawn_future(std::move(s), scope, talloc<std::byte>{});
+          auto fut = spawn_future(pass(s), scope, talloc<std::byte>{});
           E.countdown = 0;
           if (post == "await") {
             if (E.pending) { auto f = std::move(E.pending); E.pending = nullptr; f(); }
@@ -223,11 +232,11 @@ std::string run_once(const std::string& fn, char kind, const std::string& post, 
   return bad;
 }
 
-template <typename Scope>
+template <typename Scope, bool LV = false>
 std::string sweep(const std::string& fn, char kind, const std::string& post) {
   std::string pts, bad, runs;
   for (int k = 1; k <= 64; ++k) {
-    std::string b = run_once<Scope>(fn, kind, post, k);
+    std::string b = run_once<Scope, LV>(fn, kind, post, k);
     std::string where = E.hit ? E.hit : "none";
     runs += (runs.empty() ? "" : ",") + where + "@" + std::to_string(k) + "=" + std::to_string((int)last_threw) + "/" +
             std::to_string(E.allocs) + "/" + std::to_string(E.deallocs) + "/" + std::to_string(E.started);
@@ -238,7 +247,8 @@ std::string sweep(const std::string& fn, char kind, const std::string& post) {
   return "points=" + pts + " | runs=" + runs + " | " + (bad.empty() ? "OK" : "BAD " + bad);
 }
 
-std::string dispatch(const std::string& fn, const std::string& sc, char kind, const std::string& post) {
+std::string dispatch(const std::string& fn, const std::string& sc, char kind, const std::string& post, bool lv) {
+  if (lv) return sc == "v1" ? sweep<v1::async_scope, true>(fn, kind, post) : sweep<v2::async_scope, true>(fn, kind, post);
   if (sc == "v2") return sweep<v2::async_scope>(fn, kind, post);
   if (sc == "v1") return sweep<v1::async_scope>(fn, kind, post);
   if (sc == "fv2") return sweep<flaky<v2::async_scope>>(fn, kind, post);
@@ -251,8 +261,8 @@ int main() {
   std::string line;
   while (std::getline(std::cin, line)) {
     std::istringstream is(line);
-    std::string fn, sc, kind, post;
-    is >> fn >> sc >> kind >> post;
+    std::string fn, sc, kind, post, arg;
+    is >> fn >> sc >> kind >> post >> arg;
     if (fn.empty()) { std::printf("\n"); continue; }
     std::string res;
     if (post == "fork") {
@@ -273,9 +283,9 @@ int main() {
             ((want_abort ? aborted : clean) ? "OK" : "BAD none@0:terminate(child " +
                std::string(aborted ? "aborted" : clean ? "exited 0" : "failed") + ")");
     } else {
-      res = dispatch(fn, sc, kind[0], post);
+      res = dispatch(fn, sc, kind[0], post, arg == "lv");
     }
-    std::printf("%s %s %s %s | %s\n", fn.c_str(), sc.c_str(), kind.c_str(), post.c_str(), res.c_str());
+    std::printf("%s %s %s %s%s | %s\n", fn.c_str(), sc.c_str(), kind.c_str(), post.c_str(), arg.empty() ? "" : (" " + arg).c_str(), res.c_str());
     std::fflush(stdout);
   }
   return 0;
